@@ -11,14 +11,14 @@
 import binascii
 from vf import core
 
-THM = ["YaraModel.Thm.C12"]
+THM = ["YaraModel.Thm.C12", "YaraModel.Thm.C12Flags"]
 MANIFEST = dict(
     technique="Lean 4 theorems (fold = VM for all int64 operands) over definitions regenerated from grammar.y/exec.c by translators + real-code fold-vs-VM differential + metamorphic twin compilation/scans",
     text="proof: Thm/C12.lean proves, for ALL 64-bit operands and every arithmetic/bitwise/shift operator, that the value the grammar action folds at compile time "
          "equals the value the emitted VM opcode computes (and that unknown operands are never guessed), against Lean definitions REGENERATED on every run from "
          "grammar.y and exec.c; the translation is validated by running the real compiler and VM on boundary operands. The remaining clauses (fast mode, atom quality "
          "tables, forced evaluation, literal/expression/external rewrites, external redefinition) are checked by metamorphic twins on the real code (sampled rules, "
-         "verdict equality) — partial: the flag-soundness theorems over the condition model are stated in DESIGN.md but not all proved.",
+         "verdict equality); Thm/C12Flags.lean proves the soundness of the FIXED_OFFSET / SINGLE_MATCH shortcuts and of skipping rules whose strings did not match (`fixed_offset_sound`, `single_match_sound`, `needs_match_sound`) over the condition specification of C04, for all environments and expressions — that the compiler sets the flags only in the situations these theorems cover is sampled by the twins.",
     design_ref="DESIGN.md §5 C12",
     note=core.TB + "Translators translators/fold.py, translators/vmops.py, translators/cexpr.py are trusted to render the C text (validated by the fold-vs-VM differential). "
                    "Signed overflow is modelled as two's-complement wrap (what gcc/x86-64 does; formally UB).")
